@@ -2,7 +2,7 @@
    enclosure goals tied to the complex specification. *)
 From Coq Require Import Reals List ZArith Lia Lra.
 From Coquelicot Require Import Complex.
-From AL Require Import C12.Model C12.Spec C12.ModelR C12.Proofs C12.ProofsT.
+From AL Require Import C12.Model C12.Spec C12.ModelR C12.Proofs C12.ProofsT C12.ProofsH.
 Import ListNotations.
 Open Scope R_scope.
 
@@ -237,4 +237,20 @@ Proof.
     apply map_Forall_eq. exact IH.
   - cbn [rtree_inj spec_tree]. rewrite (tree_tf_par CR_ops CR_cx), map_map. f_equal.
     apply map_Forall_eq. exact IH.
+Qed.
+
+(* ---- the object as it is now (after in-place edits), and histories ---- *)
+Definition R_lf_fr_now := lf_fr_now CR_ops CR_cx CR_field Ceqb_spec CR_cx_0 CR_cx_add.
+Definition R_fir_dft_impulse_now := fir_dft_impulse_now CR_ops CR_cx CR_field Ceqb_spec CR_cx_0.
+Definition R_hist_calls_independent := hist_calls_independent CR_ops CR_cx.
+
+Lemma fir_steady_state_now_R f w zero len ys n :
+  fir_run CR_ops f zero (map (fun n => cis (w * INR n)) (seq 0 len)) = Some ys ->
+  psum CR_ops CR_cx (snd f) w <> RtoC 0 ->
+  fst f <> [] \/ zero = RtoC 0 ->
+  (forall kc, In kc (fst f) -> (fst kc <= Z.of_nat n)%Z) -> (n < len)%nat ->
+  nth n ys zero = Cmult (Cdiv (psum CR_ops CR_cx (fst f) w) (psum CR_ops CR_cx (snd f) w)) (cis (w * INR n)).
+Proof.
+  intros Hr Hnz Hz Hk Hn. rewrite <- cexp_input_cis in Hr. rewrite <- CR_cx_neg.
+  exact (fir_steady_state_now CR_ops CR_cx CR_field Ceqb_spec CR_cx_0 CR_cx_add f w zero len ys n Hr Hnz Hz Hk Hn).
 Qed.
